@@ -21,7 +21,7 @@ def main():
     if kind == "seeded":
         prop = sys.argv[4]
         v = verify_one(dst)
-        meta = {"id": ident, "property": prop, "source": "independent sub-agent given only the property text and a scratch worktree (round 2)", "repo_head": head,
+        meta = {"id": ident, "property": prop, "source": "independent sub-agent given only the property text and a scratch worktree (round " + os.environ.get("ROUND", "3") + ")", "repo_head": head,
                 "needs_to_manifest": desc, "confirmed": {"patch_applies": v.get("applies"), "pinned_suite_with_patch": v.get("tests_tail"), "demo_unmodified_exit": v.get("demo_clean"),
                                                          "demo_patched_exit": v.get("demo_patched"), "demo_patched_tail": v.get("demo_tail")},
                 "what_i_ran": "tools/verify_seeded.py in a scratch git worktree of /repo (removed afterwards); the demo is run as <worktree>/out/1/demo.py",
